@@ -34,7 +34,7 @@ input In { r: Int! o: Int = 1 n: In l: [Int!] } \
 scalar Any \
 directive @d(x: Int) on FIELD | QUERY | FRAGMENT_SPREAD | INLINE_FRAGMENT | FRAGMENT_DEFINITION | VARIABLE_DEFINITION \
 directive @rep repeatable on FIELD \
-type Query { a: Int f(x: Int, y: Int! = 1, z: Int!): Int g(l: [Int], e: E, i: In, s: String, b: Boolean, id: ID, fl: Float, nn: [Int!], ll: [[Int]]): Int c(s: Any): Any t: T u: U i: I w: W } \
+type Query { a: Int f(x: Int, y: Int! = 1, z: Int!): Int g(l: [Int], e: E, i: In, s: String, b: Boolean, id: ID, fl: Float, nn: [Int!], ll: [[Int]]): Int c(s: Any): Any cn(s: Any!): Any t: T u: U i: I w: W } \
 type Mutation { m: Int } \
 type Subscription { s: Int s2: Int t: T }";
 
@@ -81,6 +81,7 @@ pub const BASE_PAIRS: &[(usize, &str, &str)] = &[
     (1, "b13-mutation-explicit-root", "mutation { set(v: 2, on: true) { e n { id } } }"),
     (2, "b14-response-shapes", "{ ab { ... on A { k: n o { x: n } l } ... on B { k: n o { x: n } l } } }"),
     (0, "b16-abstract-parent-merging", "{ i { x: a ... on T { x: a } ... on V { x: a } } u { ... on I { y: a } ... on V { y: a } ... on T { y: a } } }"),
+    (0, "b17-custom-scalar-literals", "{ cn(s: [null, 1, {k: null}]) c(s: [null]) x: cn(s: {k: [null]}) y: cn(s: A) }"),
     (2, "b15-response-shapes-fragments", "{ ab { ...FA ...FB } } fragment FA on A { v: ln o { o { s } } } fragment FB on B { v: ln o { o { s } } }"),
 ];
 
